@@ -413,7 +413,7 @@ theorem confinement_any_R (ord : List FileEnt → List FileEnt) (hord : OrdOK or
   cases hs : treeSort t with
   | error e => rw [unpackTree_dup ord fl t e hs]; rfl
   | ok t' =>
-    obtain ⟨d, _, hinv⟩ := InvR.run flt lflt _ i fs₀ [] (InvR.start R fs₀) (unpackTree_wellPlaced ord hord fl t t' hs)
+    obtain ⟨d, _, _, _, hinv⟩ := InvR.run flt lflt _ i fs₀ [] (InvR.start R fs₀) (unpackTree_wellPlaced ord hord fl t t' hs)
     funext p
     unfold outside
     cases h : underB R p with
@@ -434,7 +434,7 @@ theorem repaired_touches_only_named_paths (ord : List FileEnt → List FileEnt) 
   cases hs : treeSort t with
   | error e => rw [unpackTree_dup ord fl t e hs] at h; exact absurd rfl h
   | ok t' =>
-    obtain ⟨d, hsub, hinv⟩ := InvR.run flt lflt _ i fs₀ [] (InvR.start R fs₀) (unpackTree_wellPlaced ord hord fl t t' hs)
+    obtain ⟨d, hsub, _, _, hinv⟩ := InvR.run flt lflt _ i fs₀ [] (InvR.start R fs₀) (unpackTree_wellPlaced ord hord fl t t' hs)
     obtain ⟨sc, hm, c, k, hcf, hne, hp⟩ := hinv.chg p h
     refine ⟨sc, ?_, c, hne, hcf.2.1, hp, fun x hx => ?_⟩
     · rcases hsub sc hm with h1 | h1
@@ -442,6 +442,26 @@ theorem repaired_touches_only_named_paths (ord : List FileEnt → List FileEnt) 
       · exact h1
     · obtain ⟨h1, h2, h3, h4⟩ := hcf.1 x hx
       exact ⟨h1, (Sqfs.C18.sane_iff x).2 ⟨h3, h4, h2⟩⟩
+
+/-- **Success is a statement about the file system, not about the trace** (repaired code).  If no call of the repaired run
+    failed, then for every creating call of the plan (`mkdir`, `symlink`, `mknod`, `open(O_CREAT|O_EXCL)`; by
+    `skipped_reported_rest_unpacked` every reachable node has one) the object at its place `R ++ c` exists in the final file
+    system and is of the sort of that node's inode type: where the image has a directory there **is a directory** — a
+    `mkdir` answering `EEXIST` on a file, a device or a symbolic link no longer counts as "unpacked", as it does for the
+    current code (`success_means_everything_unpacked` speaks about the trace only, `Fine` includes the tolerated `EEXIST`). -/
+theorem repaired_success_objects_in_place (ord : List FileEnt → List FileEnt) (hord : OrdOK ord) (fl : Flags) (t : TNode)
+    (R : PathC) (fs₀ : Fs) (flt : Faults) (lflt : Nat → Bool) (i : Nat)
+    (hok : (runR flt lflt R i fs₀ (unpackTree ord fl t).syscalls).failed = false) :
+    ∀ sc ∈ (unpackTree ord fl t).syscalls, sc.isCreate = true →
+      ∃ (c : List Bytes) (k : Kind), sc.path = joinSlash c ∧ Compat sc k ∧
+        (c ≠ [] → ∃ n, (runR flt lflt R i fs₀ (unpackTree ord fl t).syscalls).fs (R ++ c) = some n ∧ kindMatch n.kind k = true) := by
+  intro sc hsc hcr
+  cases hs : treeSort t with
+  | error e => rw [unpackTree_dup ord fl t e hs] at hsc; simp at hsc
+  | ok t' =>
+    obtain ⟨d, _, _, hall, hinv⟩ := InvR.run flt lflt _ i fs₀ [] (InvR.start R fs₀) (unpackTree_wellPlaced ord hord fl t t' hs)
+    obtain ⟨c, k, _, hg, hpath, hcompat⟩ := unpackTree_ops ord hord fl t t' hs sc hsc
+    exact ⟨c, k, hpath, hcompat, fun hne => hinv.est sc (hall hok sc hsc) hcr c k ⟨hg, hpath, hcompat⟩ hne⟩
 
 /-- **`main` of the repaired unpacker, end to end**: for every tree, option set, fill order, `--unpack-root` argument
     (or none), start directory, file system and failing calls, what `main` does after `mkdir_p`/`chdir` changes nothing
